@@ -8,7 +8,7 @@ WD = os.path.join(BUILD, "conc")
 PLAN = {
     "C05": dict(what="pending,closerace,cycles,api", owns=["C05"], props="props/C05.v"),
     "C06": dict(what="pending,closerace,readerr,cycles", owns=["C06"], props="props/C06.v"),
-    "C07": dict(what="api,closerace,pending", owns=["C07"], props="props/C07.v", race=True),
+    "C07": dict(what="api,closerace,pending", owns=["C07"], props="props/C07.v", race=True, extra_props=["props/Bridge2.v"]),
     "C13": dict(what="closerace,cycles,limit,readerr", owns=["C13"], props="props/C13.v"),
     "C14": dict(what="buffers,absorb,others", owns=["C14"], props="props/C14.v"),
 }
@@ -55,17 +55,20 @@ def run_conc_property(run):
     pid = run.pid
     plan = PLAN[pid]
     os.makedirs(WD, exist_ok=True)
-    files = ["obl/OblCfg.v", plan["props"]]
+    files = ["obl/OblCfg.v", plan["props"]] + plan.get("extra_props", [])
     with Lock():
         ok_static, log_static = coq_static()
         okx, logx = run_xlate("cfg,consts")
         ok, log = False, ""
         if ok_static and okx:
-            ok, log = coq_make([plan["props"] + "o"])
+            ok, log = coq_make([f + "o" for f in files[1:]])
         total, done, failed = proof_obligations(files, log, ok)
         pa_closed, pa_axioms = 0, []
         if ok:
-            _, pa_closed, pa_axioms, _ = props_assumptions(plan["props"])
+            for pf in files[1:]:
+                _, c1, a1, _ = props_assumptions(pf)
+                pa_closed += c1
+                pa_axioms += a1
         okh, logh, binp = build_harness("conc")
         okr, logr, binr = (True, "", None)
         if plan.get("race"):
